@@ -25,7 +25,7 @@ class C14(Prop):
                   'identifier candidate with a separator; distinct = distinct case')
 
     def streams(self, rng, tier):
-        n = 500 if tier == 'quick' else scale(80000)
+        n = 1200 if tier == 'quick' else scale(80000)
         A = M.NAMES3
         sro = []
         for ln in range(0, 4):
